@@ -25,7 +25,7 @@ func init() {
 			"Oracle: no script/style tag in the re-tokenised or re-parsed output, and no text marker that x/net's tree builder places inside a script/style element of the input appears in the output. " +
 			"non-trivial = the input contains a script or style element according to the tree builder.",
 		Assumptions: []string{"'inside a script/style element' is decided by html.ParseFragment on the input in body and div context (what a browser would execute / apply)"},
-		QuickBudget:  50, ThoroughBudget: 800,
+		QuickBudget: 50, ThoroughBudget: 800,
 		Run:    runC05,
 		Replay: replayC05,
 	})
